@@ -209,7 +209,7 @@ func init() {
 						}
 					}
 				}
-				if c.Idx%8 == 5 {
+				if c.Idx%8 == (c.Idx/8)%8 {
 					// one member kind in every member position (gen.PositionTypes), all entry points
 					kind := gen.PositionKinds[(c.Idx/8)%len(gen.PositionKinds)]
 					nz := func(v reflect.Value) {
